@@ -1416,6 +1416,9 @@ class SingleDot(DotProduct):
             Y = Y[:, self.index : self.index + 1]
         return super(SingleDot, self).__call__(X, Y, eval_gradient)
 
+    def diag(self, X):
+        return super(SingleDot, self).diag(X[:, self.index : self.index + 1])
+
 
 class DensityNoise(StationaryKernelMixin, GenericKernelMixin, Kernel):
     def __init__(self, index=0):
@@ -1601,7 +1604,7 @@ class ADKernel(Kernel):
         return self.k.__call__(X, Y, eval_gradient)
 
     def diag(self, X):
-        return self.k.diag(X)
+        return self.k.diag(X[:, self.active_dims])
 
     def __repr__(self):
         return self.k.__repr__()
@@ -1642,6 +1645,11 @@ class SpinSymKernel(ADKernel):
             return kup[0] + kdown[0], kup[1] + kdown[1]
         else:
             return kup + kdown
+
+    def diag(self, X):
+        kup = self.k.diag(X[:, self.up_active_dims])
+        kdown = self.k.diag(X[:, self.down_active_dims])
+        return kup + kdown
 
 
 class SubsetRBF(_SubsetMixin, DiffRBF):
